@@ -573,6 +573,7 @@ struct decode_traits<std::array<T,N>>
             return result_type{jsoncons::unexpect, conv_errc::not_vector, cursor.line(), cursor.column()}; 
         }
         cursor.next(ec);
+        std::size_t count = 0;
         for (std::size_t i = 0; i < N && cursor.current().event_type() != staj_events::end_array && !ec; ++i)
         {
             auto r = decode_traits<element_type>::decode(aset, cursor);
@@ -581,11 +582,17 @@ struct decode_traits<std::array<T,N>>
                 return result_type(jsoncons::unexpect, r.error());
             }
             v[i] = std::move(*r);
+            ++count;
             cursor.next(ec);
             if (JSONCONS_UNLIKELY(ec)) 
             {
                 return result_type{jsoncons::unexpect, conv_errc::not_vector, cursor.line(), cursor.column()}; 
             }
+        }
+        // a std::array<T,N> takes exactly N elements, as the basic_json route requires
+        if (count != N || cursor.current().event_type() != staj_events::end_array)
+        {
+            return result_type{jsoncons::unexpect, conv_errc::not_vector, cursor.line(), cursor.column()}; 
         }
         return v;
     }
